@@ -3,12 +3,14 @@ package main
 import (
 	"bytes"
 	"encoding/hex"
+	"encoding/json"
 	"errors"
 	"fmt"
 	"sort"
 	"strconv"
 	"strings"
 
+	"github.com/ontio/ontology-crypto/keypair"
 	"github.com/polynetwork/poly/common"
 	"github.com/polynetwork/poly/common/constants"
 	"github.com/polynetwork/poly/core/store"
@@ -337,6 +339,9 @@ func init() {
 		s.Register("relay", relayHandler)
 	}
 	families["atomic"] = func() hx.Family { return &atomic{reps: 1} }
+	// C16 (a): the same ops, every block executed 5 (thorough 25) times on two ledgers with the same history, plus blocks of
+	// real governance transactions (handlers that range over Go maps)
+	families["determ"] = func() hx.Family { return &atomic{reps: 5, twin: true, native: true} }
 }
 
 // ---- the family
@@ -344,6 +349,8 @@ func init() {
 type atomic struct {
 	reps    int // executions of every block (C16: must all be identical)
 	twin    bool
+	native  bool // also generate blocks of real native-contract transactions
+	specs   map[string]methodSpec
 	led     *ledgerT
 	led2    *ledgerT // second ledger with the same history (fresh stores), when twin
 	nonce   uint32
@@ -529,6 +536,60 @@ func (f *atomic) Exec(r *hx.Run, op []string) string {
 		f.oracle(r, blk, res)
 		f.repeat(r, blk, res, line)
 		return line
+	case "nblk":
+		// nblk <dt> <contract>/<method>;<variant>;<signers>;<owner> ...   a block of real native-contract transactions
+		if len(op) < 2 || !allDigits(op[1]) {
+			return "bad-op"
+		}
+		if err := f.ensure(); err != nil {
+			return "err-ledger:" + err.Error()
+		}
+		dt, _ := strconv.Atoi(op[1])
+		txs, ok := f.nativeTxs(op[2:])
+		if !ok {
+			return "bad-op"
+		}
+		blk, err := f.led.nextBlock(txs, uint32(dt))
+		if err != nil {
+			return "err-block:" + err.Error()
+		}
+		res, err := f.led.execute(blk)
+		if err != nil {
+			f.lastOk = false
+			return "err-exec"
+		}
+		f.lastBlk, f.lastRes, f.lastOk = blk, res, true
+		f.lastRef = map[string][]byte{}
+		line := renderNative(res)
+		nOk := 0
+		for _, n := range res.Notify {
+			if n.State == event.CONTRACT_STATE_SUCCESS {
+				nOk++
+				r.Hist("native.ok")
+			} else {
+				r.Hist("native.fail")
+			}
+		}
+		reps := f.reps
+		if r.Thorough() {
+			reps *= 5
+		}
+		for i := 1; i < reps; i++ {
+			led := f.led
+			if f.led2 != nil && i%2 == 1 {
+				led = f.led2
+			}
+			res2, err := led.execute(blk)
+			if err != nil {
+				r.Viol("C16:rerun-error", "re-executing the same block failed: "+err.Error())
+				return "DIFF"
+			}
+			if l2 := renderNative(res2); l2 != line || res2.MerkleRoot != res.MerkleRoot {
+				r.Viol("C16:rerun-differs:native:"+nativeKey(op[2:]), "the same block of native transactions on the same prior state gave two results: "+firstDiff(line, l2))
+				return "DIFF"
+			}
+		}
+		return fmt.Sprintf("same n=%d", len(txs))
 	case "commit":
 		if !f.lastOk {
 			return "bad-op"
@@ -714,6 +775,119 @@ func (f *atomic) repeat(r *hx.Run, blk *types.Block, res store.ExecuteResult, li
 	}
 }
 
+// nativeTxs builds real transactions from <contract>/<method>;<variant>;<signers>;<owner> tokens.
+func (f *atomic) nativeTxs(toks []string) ([]*types.Transaction, bool) {
+	if f.specs == nil {
+		f.specs = map[string]methodSpec{}
+		for _, s := range catalogue() {
+			f.specs[s.id] = s
+		}
+	}
+	role := func(s string) (common.Address, bool) {
+		switch s {
+		case "op":
+			var ks []keypair.PublicKey
+			for _, k := range valKeys {
+				ks = append(ks, k.pub)
+			}
+			a, _ := types.AddressFromBookkeepers(ks)
+			return a, true
+		case "own":
+			return ownKey.addr, true
+		case "oth":
+			return othKey.addr, true
+		}
+		if len(s) == 2 && s[0] == 'v' && s[1] >= '1' && s[1] <= '4' {
+			return valKeys[s[1]-'1'].addr, true
+		}
+		return common.Address{}, false
+	}
+	var txs []*types.Transaction
+	for _, t := range toks {
+		p := strings.Split(t, ";")
+		if len(p) != 4 || !allDigits(p[1]) {
+			return nil, false
+		}
+		spec, ok := f.specs[strings.Replace(p[0], "/", " ", 1)]
+		if !ok && strings.HasPrefix(p[0], "header_sync/") { // header_sync/<pkg>/SyncGenesisHeader
+			i := strings.LastIndex(p[0], "/")
+			spec, ok = f.specs[p[0][:i]+" "+p[0][i+1:]]
+		}
+		if !ok {
+			return nil, false
+		}
+		v, _ := strconv.Atoi(p[1])
+		var signers []common.Address
+		if p[2] != "-" {
+			for _, sname := range strings.Split(p[2], ",") {
+				a, ok := role(sname)
+				if !ok {
+					return nil, false
+				}
+				signers = append(signers, a)
+			}
+		}
+		owner, ok := role(p[3])
+		if !ok {
+			return nil, false
+		}
+		f.nonce++
+		txs = append(txs, invokeTx(spec.contract, spec.method, spec.args(owner, v), f.nonce, signers))
+	}
+	return txs, true
+}
+
+func nativeKey(toks []string) string {
+	var ms []string
+	seen := map[string]bool{}
+	for _, t := range toks {
+		m := strings.Split(t, ";")[0]
+		if !seen[m] {
+			seen[m] = true
+			ms = append(ms, m)
+		}
+	}
+	sort.Strings(ms)
+	return strings.Join(ms, "+")
+}
+
+func firstDiff(a, b string) string {
+	i := 0
+	for i < len(a) && i < len(b) && a[i] == b[i] {
+		i++
+	}
+	lo := i - 60
+	if lo < 0 {
+		lo = 0
+	}
+	ha, hb := i+120, i+120
+	if ha > len(a) {
+		ha = len(a)
+	}
+	if hb > len(b) {
+		hb = len(b)
+	}
+	return fmt.Sprintf("at byte %d: …%s… vs …%s…", i, a[lo:ha], b[lo:hb])
+}
+
+// renderNative renders every observable part of the result of a block of real transactions (events as JSON).
+func renderNative(res store.ExecuteResult) string {
+	var parts []string
+	for _, n := range res.Notify {
+		var evs []string
+		for _, e := range n.Notify {
+			js, err := json.Marshal(e.States)
+			if err != nil {
+				js = []byte(fmt.Sprintf("%v", e.States))
+			}
+			evs = append(evs, short(e.ContractAddress)+"@"+string(js))
+		}
+		parts = append(parts, fmt.Sprintf("%d/%s", n.State, strings.Join(evs, ",")))
+	}
+	return strings.Join(parts, " ") + " | x=" + join(crossStrings(res.CrossHashes)) + " w=" + join(writeSetStrings(res)) +
+		" h=" + hex.EncodeToString(res.Hash[:]) + " r=" + hex.EncodeToString(res.CrossStatesRoot[:])
+}
+
 // ---- generator
 
 type agen struct {
@@ -874,6 +1048,9 @@ func (f *atomic) Gen(r *hx.Run) {
 			}
 		}
 	}
+	if f.native {
+		f.genNative(r, &id)
+	}
 	// every failure position of a fixed 8-instruction program, with effects before and after it
 	base := []string{"put 01 aa", "ntf 01", "mkl 02", "cp 01 02", "del 01", "call B.run [ put 0301 bb mkl 03 ntf 04 ]", "put 02 cc", "ntf 05"}
 	for k := 0; k <= len(base); k++ {
@@ -898,3 +1075,65 @@ func (f *atomic) Gen(r *hx.Run) {
 	}
 }
 
+
+// genNative: blocks of real governance transactions; every handler that ranges over a Go map is on the path
+// (CheckConsensusSigns, GetCurConOperator, executeCommitDpos, BlackNode, UpdateFee, peer pool (de)serialisation).
+func (f *atomic) genNative(r *hx.Run, id *int) {
+	vals := []string{"v1", "v2", "v3", "v4"}
+	each := func(method string, variant int, who []string) string {
+		var t []string
+		for _, v := range who {
+			t = append(t, fmt.Sprintf("%s;%d;%s;%s", method, variant, v, v))
+		}
+		return strings.Join(t, " ")
+	}
+	block := func(txs string, commit bool) {
+		res := r.Do("nblk " + fmt.Sprint(r.Rng.Intn(3)) + " " + txs)
+		r.Nontrivial("native/" + nativeKey(strings.Fields(txs)) + "/" + res)
+		if commit {
+			r.Do("commit")
+		}
+	}
+	var ids []string
+	for _, s := range catalogue() {
+		ids = append(ids, strings.Replace(s.id, " ", "/", 1))
+	}
+	n := r.Pick(6, 150)
+	for c := 0; c < n; c++ {
+		*id++
+		r.Case(fmt.Sprintf("native-%d", *id))
+		three := []string{vals[r.Rng.Intn(4)]}
+		for len(three) < 3 {
+			v := vals[r.Rng.Intn(4)]
+			dup := false
+			for _, x := range three {
+				dup = dup || x == v
+			}
+			if !dup {
+				three = append(three, v)
+			}
+		}
+		block("node_manager/registerCandidate;0;own;own side_chain_manager/registerSideChain;0;own;own relayer_manager/registerRelayer;0;own;own neo3_state_manager/registerStateValidator;0;own;own node_manager/registerCandidate;1;oth;oth", true)
+		block(each("node_manager/approveCandidate", 0, three)+" "+each("side_chain_manager/approveRegisterSideChain", 0, three)+" "+
+			each("relayer_manager/approveRegisterRelayer", 0, three)+" "+each("neo3_state_manager/approveRegisterStateValidator", 0, three), true)
+		block("node_manager/commitDpos;0;op;op node_manager/updateConfig;"+fmt.Sprint(r.Rng.Intn(3))+";op;op cross_chain_manager/BlackChain;0;op;op cross_chain_manager/WhiteChain;0;op;op "+
+			"side_chain_manager/updateSideChain;0;own;own signature_manager/addSignature;0;v1;v1 signature_manager/addSignature;0;v2;v2 signature_manager/addSignature;0;v3;v3", true)
+		block(each("node_manager/blackNode", 0, three)+" node_manager/commitDpos;0;op;op "+each("side_chain_manager/updateFee", 0, vals), true)
+		block(each("node_manager/whiteNode", 0, three)+" node_manager/quitNode;0;v4;v4 relayer_manager/RemoveRelayer;0;own;own "+each("relayer_manager/approveRemoveRelayer", 0, three)+
+			" header_sync/btc/SyncGenesisHeader;0;oth;oth header_sync/eth/SyncGenesisHeader;0;op;op", true)
+		// random blocks, mostly with the right witness
+		for b := 0; b < r.Pick(6, 12); b++ {
+			var txs []string
+			for i := 0; i < 1+r.Rng.Intn(6); i++ {
+				m := ids[r.Rng.Intn(len(ids))]
+				who := []string{"own", "oth", "op", "v1", "v2", "v3", "v4"}[r.Rng.Intn(7)]
+				signer := who
+				if r.Rng.Chance(1, 4) {
+					signer = []string{"-", "oth", "op", "v1,v2,v3"}[r.Rng.Intn(4)]
+				}
+				txs = append(txs, fmt.Sprintf("%s;%d;%s;%s", m, r.Rng.Intn(3), signer, who))
+			}
+			block(strings.Join(txs, " "), r.Rng.Chance(2, 3))
+		}
+	}
+}
